@@ -159,14 +159,20 @@ function check (c, resp) {
         if (o.src === undefined) return e.src === undefined
         if (e.src === undefined) return false
         if (e.srcLine !== o.srcLine || e.srcCol !== o.srcCol) return false
-        if (!applyRoot(orig, o.src).has(emitted.sources[e.src])) return false
+        // compare what a consumer resolves: sources with the map's own sourceRoot applied (once)
+        const want = applyRoot(orig, o.src)
+        const got = applyRoot(emitted, e.src)
+        if (emitted.sourceRoot) got.delete(emitted.sources[e.src]) // a consumer does apply a non-empty root
+        let hit = false
+        for (const g of got) if (want.has(g)) hit = true
+        if (!hit) return false
         const on = o.name === undefined ? undefined : orig.names[o.name]
         const en = e.name === undefined ? undefined : (emitted.names || [])[e.name]
         return on === en
       }
       if (!(matches(o1) || matches(o2))) {
         const d = (o) => o ? (o.src === undefined ? 'token without source' : `${orig.sources[o.src]}:${o.srcLine}:${o.srcCol}${o.name !== undefined ? ' name ' + orig.names[o.name] : ''}`) : 'no token'
-        const de = e ? (e.src === undefined ? 'token without source' : `${emitted.sources[e.src]}:${e.srcLine}:${e.srcCol}${e.name !== undefined ? ' name ' + (emitted.names || [])[e.name] : ''}`) : 'no entry'
+        const de = e ? (e.src === undefined ? 'token without source' : `${emitted.sourceRoot ? '[sourceRoot ' + emitted.sourceRoot + '] ' : ''}${emitted.sources[e.src]}:${e.srcLine}:${e.srcCol}${e.name !== undefined ? ' name ' + (emitted.names || [])[e.name] : ''}`) : 'no entry'
         push('not-composition', `generated ${key}: rewrite map says original ${p.srcLine}:${p.srcCol}; looking that up in the original map gives ${d(o1)}${o2 !== o1 ? ' (or ' + d(o2) + ' across lines)' : ''}, but the emitted map has ${de}`, { generated: key })
         break
       }
